@@ -176,6 +176,7 @@ func (f *fakeES) ValidateEarlyStoppingSettings(ctx context.Context, in *api.Vali
 type dbEntry struct {
 	text string
 	ts   string
+	name string // "" = the objective metric
 }
 
 type fakeDB struct {
@@ -190,7 +191,11 @@ func (d *fakeDB) GetTrialObservationLog(t *trialsv1beta1.Trial) (*api.GetObserva
 	d.s.done("db.get."+t.Name, nil)
 	ml := []*api.MetricLog{}
 	for _, e := range d.logs[t.Name] {
-		ml = append(ml, &api.MetricLog{TimeStamp: e.ts, Metric: &api.Metric{Name: "acc", Value: e.text}})
+		nm := "acc"
+		if e.name != "" {
+			nm = e.name
+		}
+		ml = append(ml, &api.MetricLog{TimeStamp: e.ts, Metric: &api.Metric{Name: nm, Value: e.text}})
 	}
 	return &api.GetObservationLogReply{ObservationLog: &api.ObservationLog{MetricLogs: ml}}, nil
 }
@@ -208,7 +213,7 @@ func (d *fakeDB) ReportTrialObservationLog(t *trialsv1beta1.Trial, l *api.Observ
 	}
 	d.s.done("db.report."+t.Name, nil)
 	for _, m := range l.MetricLogs {
-		d.logs[t.Name] = append(d.logs[t.Name], dbEntry{m.Metric.Value, m.TimeStamp})
+		d.logs[t.Name] = append(d.logs[t.Name], dbEntry{text: m.Metric.Value, ts: m.TimeStamp})
 	}
 	return &api.ReportObservationLogReply{}, nil
 }
@@ -624,8 +629,11 @@ func (s *sim) userDelete(ns, name string) bool {
 	return s.c.Delete(context.TODO(), tt) == nil
 }
 
-func (s *sim) metric(trial, val string) {
-	s.db.logs[trial] = append(s.db.logs[trial], dbEntry{val, time.Unix(int64(1700000000+s.opIndex), 0).UTC().Format(time.RFC3339)})
+func (s *sim) metric(trial, val string) { s.metricNamed(trial, "", val) }
+
+// metricNamed: an entry of another metric than the objective ("" = the objective)
+func (s *sim) metricNamed(trial, name, val string) {
+	s.db.logs[trial] = append(s.db.logs[trial], dbEntry{text: val, ts: time.Unix(int64(1700000000+s.opIndex), 0).UTC().Format(time.RFC3339), name: name})
 }
 
 func (s *sim) earlyStop(ns, name string) bool {
@@ -792,7 +800,11 @@ func (s *sim) dump() string {
 	for _, k := range keys {
 		vs := []string{}
 		for _, e := range s.db.logs[k] {
-			vs = append(vs, hx(e.text))
+			if e.name != "" {
+				vs = append(vs, hx(e.name)+"@"+hx(e.text))
+			} else {
+				vs = append(vs, hx(e.text))
+			}
 		}
 		out = append(out, fmt.Sprintf("M %s %s", k, dashJoin(vs)))
 	}
